@@ -8,6 +8,7 @@ class Contract:
     def __init__(self, target, props, node, module, kind='contract'):
         self.target, self.props, self.node, self.module, self.kind = target, props, node, module, kind
         self.pre, self.post, self.exc, self.loops = [], [], {}, {}
+        self.comps = {}
         self.raises = ()
         self.modifies = None
         self.attrs = {}
@@ -24,6 +25,10 @@ class Contract:
                     self.exc.setdefault(cls, []).append(item)
                 elif n == 'modifies':
                     self.modifies = item
+                elif n.startswith('comp') and n[4:5].isdigit():
+                    # comp<k>_inv / comp<k>_modifies : comprehension #k (source order) executed as a loop with invariant
+                    k, what = n[4:].split('_', 1)
+                    self.comps.setdefault(int(k), {})[what] = item
                 elif n.startswith('loop'):
                     # loop<k>_inv / loop<k>_modifies / loop<k>_decreases
                     k, what = n[4:].split('_', 1)
@@ -169,6 +174,16 @@ class Registry:
         _, vars_, guard, elt, coll = q
         k, v = elt
         d = eng.new_dict(eng.value_type(k), eng.value_type(v))
+        kt = eng.coerce_term(k, d.kty)
+        if len(vars_) == 1 and z3.eq(kt, vars_[0]) and not isinstance(coll, ListV):
+            # exact summary when the key of the new dict is the iteration variable of a dict / set (pairwise distinct
+            # keys): present exactly where the guard holds, with the value expression of that key
+            hn, ha = eng.dict_has(d)
+            eng.heap.set(hn, z3.Store(ha, d.ref, eng.def_array(vars_, guard)))
+            vn, va = eng.dict_val(d)
+            eng.heap.set(vn, z3.Store(va, d.ref, eng.def_array(vars_, eng.coerce_term(v, d.vty))))
+            eng._dict_order_havoc(d)
+            return d
         hn, ha = eng.dict_has(d)
         vn, va = eng.dict_val(d)
         if len(vars_) == 1 and isinstance(k, SV) and k.t.eq(vars_[0]) and isinstance(coll, (DictV, ValuesView)):
